@@ -144,4 +144,10 @@ def parse (bin : Bytes) : Option (Pt × Nat) := do
   let (sb, _) := sread Gen.schnorrParseSWidth rest
   mkSig R (beToNat sb)
 
+/-- what a caller does with raw bytes: `S256Point.parse(pk).verify_schnorr(msg, SchnorrSignature.parse(sig))` -/
+def verifyRaw (sha256 : Bytes → Bytes) (c : Cache) (pk msg sig : Bytes) : Option (Bool × Cache) := do
+  let Pk ← parsePoint pk
+  let (R, s) ← parse sig
+  verifySchnorr sha256 c Pk msg R s
+
 end Buidl.Schnorr
